@@ -22,6 +22,8 @@ struct Refs { int& r; const Base& b; int&& rr; int* p; int Refs::* pm; void (Bas
 struct OpaqueCandidate { Box<Instances> deep; long double ld; };
 struct Bitfields { bool b : 1; unsigned u : 7; Plain e : 4; };
 struct Ops { Ops& operator+=(int); bool operator==(const Ops&) const; operator bool() const; int v; };
+template <typename T> struct Dependent { typename T::value_type first; int second; typename T::other third; char c; };
+template <typename T> struct DependentTail { int head; typename T::value_type last; };
 struct Empty {};
 struct HasEmpty { Empty e; int after; };
 struct DerivedFromEmpty : Empty { char c; };
